@@ -33,7 +33,7 @@ func (c08) ID() string { return "C08" }
 func (c08) Info(t core.Tier) core.Info {
 	return core.Info{
 		Level: "exploration",
-		Rule: fmt.Sprintf("workers are built with the Go race detector (GORACE halt_on_error=0, reports written to log files, counted and de-duplicated by the zog frames of both accesses). one case = one round: %d shared schema objects (generated: nested structs / slices / pointers, catch, default, post-transforms, customs, Ptr(primitive with tests)) are used by %d goroutines x %d calls, "+
+		Rule: fmt.Sprintf("workers are built with the Go race detector (GORACE halt_on_error=0, reports written to log files, counted and de-duplicated by the zog frames of both accesses). one case = one round: %d shared schema objects (generated: nested structs / slices / pointers, catch, default, post-transforms, customs, Ptr(primitive with tests)) plus one schema built directly on the API whose slice defaults are declared with another slice type than the named destination type and whose elements are written by transforms, are used by %d goroutines x %d calls, "+
 			"each call with its own data, destination (struct schemas alternate between two destination types with the same fields in different order) and options (WithCtxValue carrying the goroutine and call id), mixed Parse / Validate; results are randomly handed to Collect / CollectMap / SanitizeAndCollect after comparison; the harness callbacks inject Gosched and short sleeps between nodes. "+
 			"oracle: (a) no race report with a zog frame; (b) the canonical result (issue multiset without $first; destination on success) of every concurrent call == the result of the same call precomputed alone on the same schema object; (c) every callback sees the context values of its own call. "+
 			"an atomic in-flight counter per schema object sampled inside callbacks gives the overlap histogram (a round that never overlaps is not counted). non-trivial: call during which >= 2 calls were in flight on the same schema object; distinct by (round, schema, input, mode).",
@@ -58,6 +58,42 @@ type c08call struct {
 	alt      bool // parse into the destination type with reversed field order
 	want     string
 	desc     string
+	direct   func(opts ...z.ExecOption) string // a call on a schema built directly on the API (shared by all goroutines)
+}
+
+// named destination types for the directly built schemas
+type c08Tags []string
+type c08Cfg struct {
+	Tags c08Tags
+	Rows [][]int
+	Name string
+}
+
+// c08DirectCalls: Validate on one shared schema whose slice defaults are declared with another (assignable) slice type than the
+// destination's, with transforms that write to the elements: every call must get its own copy of the default.
+func c08DirectCalls() []*c08call {
+	bang := func(p any, _ z.Ctx) error { s := p.(*string); *s += "!"; return nil }
+	inc := func(p any, _ z.Ctx) error { i := p.(*int); *i++; return nil }
+	sch := z.Struct(z.Schema{
+		"tags": z.Slice(z.String().PostTransform(bang)).Default([]string{"a", "b", "c"}),
+		"rows": z.Slice(z.Slice(z.Int().PostTransform(inc))).Default([][]int{{1, 2}, {3}}),
+		"name": z.String().Default("anon"),
+	})
+	render := func(cfg *c08Cfg, m z.ZogIssueMap) string { return fmt.Sprintf("%v %v %q issues=%v", cfg.Tags, cfg.Rows, cfg.Name, z.Issues.SanitizeMap(m)) }
+	mk := func(name string, start func() *c08Cfg) *c08call {
+		cl := &c08call{mode: ref.Validate, desc: "Validate(&Cfg" + name + ") on a shared schema with slice defaults ([]string for a field of a named slice type) and element-writing transforms"}
+		cl.direct = func(opts ...z.ExecOption) string {
+			cfg := start()
+			return render(cfg, sch.Validate(cfg, opts...))
+		}
+		cl.want = cl.direct()
+		return cl
+	}
+	return []*c08call{
+		mk("{}", func() *c08Cfg { return &c08Cfg{} }),
+		mk("{Name}", func() *c08Cfg { return &c08Cfg{Name: "n"} }),
+		mk("{Tags}", func() *c08Cfg { return &c08Cfg{Tags: c08Tags{"x"}} }),
+	}
 }
 
 type c08shared struct {
@@ -210,9 +246,7 @@ func (c08) RunCase(c *core.Ctx) {
 			break
 		}
 	}
-	if len(calls) == 0 {
-		return
-	}
+	calls = append(calls, c08DirectCalls()...)
 	type diverge struct {
 		call *c08call
 		got  string
@@ -231,6 +265,18 @@ func (c08) RunCase(c *core.Ctx) {
 			for k := 0; k < N; k++ {
 				ci := gr.Intn(len(calls))
 				cl := calls[ci]
+				if cl.direct != nil {
+					got := cl.direct()
+					atomic.AddInt64(&total, 1)
+					if got != cl.want {
+						mu.Lock()
+						if len(diverged) < 5 {
+							diverged = append(diverged, diverge{cl, got, gid})
+						}
+						mu.Unlock()
+					}
+					continue
+				}
 				sh := shared[cl.schema]
 				callID := fmt.Sprintf("g%d-c%d", gid, k)
 				active.Store(gid, callID)
@@ -302,7 +348,11 @@ func (c08) RunCase(c *core.Ctx) {
 		c.Count(fmt.Sprintf("callbacks_sampled_with_%d_calls_in_flight_on_the_schema", b), int(overlapHist[b]))
 	}
 	for _, d := range diverged {
-		c.Violation("concurrent-result-differs-from-solo|"+d.call.mode.String(), map[string]any{"schema": shared[d.call.schema].node.Source(), "call": d.call.desc, "goroutine": d.gid,
+		src := "schema built directly on the API (see c08DirectCalls)"
+		if d.call.direct == nil {
+			src = shared[d.call.schema].node.Source()
+		}
+		c.Violation("concurrent-result-differs-from-solo|"+d.call.mode.String(), map[string]any{"schema": src, "call": d.call.desc, "goroutine": d.gid,
 			"result_alone": d.call.want, "result_concurrently": d.got, "goroutines": G})
 	}
 	if ctxMismatch > 0 {
